@@ -52,6 +52,8 @@ var configs = []*Config{
 	{Name: "chain-invalid", Tier: "quick", Events: []string{evLease1, evSubI, evSubA, evLease2}, ChainInvalid: true, Budgets: bQ + "|2,2", ThoroughBudgets: bQ + "|2,2|3,3/2"},
 	// --- announcements: leases come and go
 	{Name: "2lease-close", Tier: "quick", Events: []string{evLease1, evLease2, evSubA, evClose1, evClose2}, Budgets: bQ, ThoroughBudgets: bQ + "|2,1|0,2/4|2,2/4"},
+	// lease won and closed back to back, then a submission (a removal must never overtake the "lease won" it belongs to)
+	{Name: "lease-close-race", Tier: "quick", Events: []string{evLease1, evClose1, evSubA}, Budgets: bQ + "|0,2|2,2", ThoroughBudgets: bQ + "|0,2|2,2|1,3|3,3/2"},
 	{Name: "lease-close-sub", Tier: "quick", Events: []string{evLease1, evClose1, evSubA, evSubA2, evLease2}, FetchErrs: 1, Budgets: "0,0;1,0|0,1/2", ThoroughBudgets: bT5},
 	{Name: "prelease", Tier: "quick", Events: []string{evSubA, evSubW, evClose1, evLease2}, PreLease: true, FetchErrs: 1, Budgets: "0,0;1,0;0,1", ThoroughBudgets: bQ + "|2,1"},
 	// --- announcements: version update, latest validated manifest
